@@ -254,7 +254,7 @@ BASE_ATTRS = build.attribute(0x40, 1, b'\x00') + build.attribute(0x40, 2, build.
 BASE_NLRI = build.nlri({'prefix': '192.0.2.0/24'}, False)
 
 # a BGP-LS node NLRI (qa/decoding/bgp-ls vectors: protocol ospf, one local node descriptor) behind an IPv4 next hop
-LS_NODE_NLRI = bytes.fromhex('0001' '0027' '02' '0000000000000000' '0100' '001a' '02000004' '00000001' '02010004' 'c0a87a7e' '02020004' '00000000' '02030004' '0a0a0a0a')
+LS_NODE_NLRI = bytes.fromhex('0001' '002d' '03' '0000000000000000' '0100' '0020' '02000004' '00000001' '02010004' 'c0a87a7e' '02020004' '00000000' '02030004' '0a0a0a0a')
 
 
 def payload(slot: dict, benign: bool) -> bytes:
